@@ -121,6 +121,9 @@ class MetaModule(BaseMetaModule, Module):
             for idx, (mapping, user_defined_controller) in enumerate(items):
                 if idx == metamodule.user_defined_controllers:
                     break
+                # Until the mapping is found to name a controller, the slot is generic.
+                user_defined_controller.value_type = Range(0, 44100)
+                user_defined_controller.default = 0
                 if mapping.module == 0 or mapping.module >= len(project.modules):
                     continue
                 mod = project.modules[mapping.module]
